@@ -232,9 +232,10 @@ def run(chk, tier, seed):
     # ---- 3b. kill probe: the real LaunchMethod.cancel_task on real processes ----------
     import subprocess, json as _json
     probe = os.path.join(os.path.dirname(os.path.dirname(os.path.abspath(__file__))), 'rigs', 'kill_probe.py')
-    for ns in (1, 0):
-        for n in (2, 3):
-            p = subprocess.run(['/venv/bin/python', probe, str(ns), str(n)], start_new_session=True,
+    for ns, n, mode in ((1, 2, ''), (1, 3, ''), (0, 2, ''), (0, 3, ''), (1, 2, 'gone'), (0, 2, 'gone')):
+        if True:
+            p = subprocess.run(['/venv/bin/python', probe, str(ns), str(n)] + ([mode] if mode else []),
+                               start_new_session=True,
                                stdout=subprocess.PIPE, stderr=subprocess.PIPE, timeout=120,
                                env=dict(os.environ))
             lines = [x for x in p.stdout.decode('utf-8', 'replace').strip().split('\n') if x.startswith('{')]
@@ -245,8 +246,8 @@ def run(chk, tier, seed):
             tr = {'uids': uids, 'spec': {u: {'exit': '0', 'fault': 'none', 'timeout': 0} for u in uids},
                   'named': [uids[0]], 'events': pr['events'], 'schedule': []}
             traces.append(tr)
-            meta.append({'kind': 'killprobe', 'scenario': 'killprobe-ns%d-n%d' % (ns, n), 'tasks': [],
-                         'cancels': [], 'bulks': None, 'probe': [ns, n]})
+            meta.append({'kind': 'killprobe', 'scenario': 'killprobe-ns%d-n%d%s' % (ns, n, mode), 'tasks': [],
+                         'cancels': [], 'bulks': None, 'probe': [ns, n, mode]})
 
     # ---- 4. monitor ----------------------------------------------------------------
     res, st = tracecheck.validate('Executor', 'ExecutorTrace', 'Dummy = 0' if False else '',
@@ -276,7 +277,8 @@ def run(chk, tier, seed):
             chk.violation(err.replace(p + '.', pid + '.', 1) if p != pid else err, classify(tr),
                           'real Popen executor trace violates %s' % err,
                           {'rig': 'executor', 'tasks': m['tasks'], 'cancels': m['cancels'],
-                           'bulks': m['bulks'], 'schedule': tr['schedule'], 'errs': errs, 'trace': tr})
+                           'bulks': m['bulks'], 'schedule': tr['schedule'], 'errs': errs, 'trace': tr,
+                           'probe': m.get('probe')})
     if traces:
         chk.sample({'scenario': meta[0]['scenario'], 'schedule': traces[0]['schedule'][:40],
                     'events': [(e['who'], e['ev'], e['uid']) for e in traces[0]['events'][:25]]})
@@ -290,6 +292,23 @@ def run(chk, tier, seed):
 def replay(chk, obj):
     from ..rigs import exec_rig as X
     from .. import sched_ctl as SC
+    if obj.get('probe'):
+        # kill probe: run it again (real processes), validate its trace
+        import subprocess, json as _json
+        ns, n, mode = (list(obj['probe']) + [''])[:3]
+        probe = os.path.join(os.path.dirname(os.path.dirname(os.path.abspath(__file__))), 'rigs', 'kill_probe.py')
+        p = subprocess.run(['/venv/bin/python', probe, str(ns), str(n)] + ([mode] if mode else []),
+                           start_new_session=True, stdout=subprocess.PIPE, stderr=subprocess.PIPE, timeout=120)
+        pr = _json.loads([x for x in p.stdout.decode().strip().split('\n') if x.startswith('{')][-1])
+        uids = pr.get('uids') or ['t1']
+        tr = {'uids': uids, 'spec': {u: {'exit': '0', 'fault': 'none', 'timeout': 0} for u in uids},
+              'named': [uids[0]], 'events': pr['events'], 'schedule': []}
+        res, st = tracecheck.validate('Executor', 'ExecutorTrace', '', [tr])
+        chk.traces += 1
+        for err in res[0]:
+            chk.violation(err, classify(tr), 'replayed kill probe violates %s' % err,
+                          {'rig': 'executor', 'probe': obj['probe'], 'errs': res[0], 'trace': tr})
+        return
     scn = X.Scenario(obj['tasks'], obj['cancels'], bulks=obj.get('bulks'))
     rig = X.ExecRig(scn, SC.scripted(obj['schedule']))
     tr  = rig.run()
